@@ -102,7 +102,7 @@ class Model:
         # range objects are index sequences, NOT slices: a descending range down to frame 0 has stop -1
         ops += [("range", nf - 1, -1, -1), ("range", 0, nf, 2)]
         ops.append(("slice_nocopy",))
-        ops += [("add",), ("join_list",), ("mdjoin",)]
+        ops += [("add",), ("join_list",), ("mdjoin",), ("join_float_time",)]
         if nf >= 2:
             ops.append(("join_discard",))
         ops.append(("stack",))
@@ -149,6 +149,11 @@ class Model:
             self._cat(2)
         elif k == "join_list":
             self._cat(3)
+        elif k == "join_float_time":
+            # the partner's times are fractional floats whatever dtype the current times have: numpy concatenation promotes
+            t_before = self.time
+            self._cat(2)
+            self.time = np.concatenate([np.asarray(t_before, float), np.asarray(t_before, float) + 0.25])
         elif k == "mdjoin":
             self._cat(2, tail=1)
         elif k == "join_discard":
@@ -243,6 +248,10 @@ def apply_real(t, op):
     if k == "join_list":
         u = t[:]
         return t.join([u, t]), [t, u], "none"
+    if k == "join_float_time":
+        u = t[:]
+        u.time = np.asarray(t.time, np.float64) + 0.25
+        return t.join(u), [t, u], "none"
     if k == "mdjoin":
         u = t[:1]
         return md.join([t, u]), [t, u], "none"
